@@ -407,7 +407,7 @@ fn int_jobs<T: Elem + TryFrom<i64>>(quick: bool, big: i64) -> Vec<Job<T>>
 where
     <T as TryFrom<i64>>::Error: Debug,
 {
-    let vals: Vec<i64> = vec![-big, -7, -1, 0, 1, 2, 3, 10, 1000, big - 1];
+    let vals: Vec<i64> = vec![-big, -big + 1, -7, -1, 0, 1, 2, 3, 10, 1000, big - 3, big - 2, big - 1];
     let mut jobs = vec![];
     let m = vals.len();
     for mask in 1u32..(1 << m) {
